@@ -460,9 +460,10 @@ def correspondence_align(ck) -> list[dict]:
         + clist(f"({zl(a)}, {copt(b, cZ)}, {clist(zl(s) for s in e)})" for a, b, e in strows) + ".\n"
         "Definition stok (r : list Z * option Z * list (list Z)) : bool :=\n"
         "  let '(ts, m, e) := r in list_eqb (list_eqb Z.eqb) (st_shard (fun x => x) ts m) e.\n"
-        "Eval vm_compute in (failing aok arows ++ map (fun i => 100000 + i)%nat (failing vok vrows)\n"
-        "   ++ map (fun i => 200000 + i)%nat (failing sok srows) ++ map (fun i => 300000 + i)%nat (failing stok strows)).\n")
-    failing = ck.coq_failing(text, "cases_fn")
+        "Eval vm_compute in (failing aok arows).\nEval vm_compute in (failing vok vrows).\n"
+        "Eval vm_compute in (failing sok srows).\nEval vm_compute in (failing stok strows).\n")
+    fa, fv, fs, fst_ = ck.coq_failing_multi(text, "cases_fn", 4)
+    failing = fa + [100000 + i for i in fv] + [200000 + i for i in fs] + [300000 + i for i in fst_]
     ntext = CASE_HEADER + (
         "Definition nrows : list (list N * list N * Z * Z * list N) :=\n  "
         + clist(f"({common.cstr(a)}, {common.cstr(b)}, {cZ(c)}, {cZ(d)}, {common.cstr(e)})" for a, b, c, d, e in nrows) + ".\n"
